@@ -25,8 +25,12 @@ import traceback
 from . import env
 
 VERIF = env.VERIF_ROOT
-EVIDENCE_DIR = os.path.join(VERIF, "evidence")
-REPLAY_DIR = os.path.join(VERIF, "replays")
+# VERIF_SCRATCH_OUT (tools/seed_eval.py, tools/mutants.py only): evidence and replays of a run against a
+# deliberately broken tree go to a scratch directory, so that parallel evaluations do not disturb
+# /verif/evidence; the registered commands never set it.
+_OUT = os.environ.get("VERIF_SCRATCH_OUT") or VERIF
+EVIDENCE_DIR = os.path.join(_OUT, "evidence")
+REPLAY_DIR = os.path.join(_OUT, "replays")
 KNOWN_FINDINGS = os.path.join(VERIF, "known_findings.json")
 
 
